@@ -174,6 +174,20 @@ Theorem C04_kex_hash_spec :
 Proof. exact kex_hash_spec. Qed.
 Print Assumptions C04_kex_hash_spec.
 
+(* the generated _cipher_info / _mac_info rows agree BY NAME with the hand-written RFC tables, so the IV / key /
+   integrity-key lengths asked of _compute_key, the block size and the tag length are those the negotiated
+   algorithm names specify (a row pointing at a similar hash class, e.g. hmac-md5-96 at sha1, breaks this) *)
+Theorem C04_tables_spec :
+  forall r d c m,
+    In c gen_ciphers -> In m gen_macs ->
+    exists k iv b dg tg,
+      lookup_name spec_ciphers (c_name c) = Some (k, iv, b) /\
+      lookup_name spec_macs (m_name m) = Some (dg, tg) /\
+      snd (requested r d IV c m) = iv /\ snd (requested r d EncKey c m) = k /\
+      snd (requested r d MacKey c m) = dg /\ c_block c = b /\ m_size m = tg.
+Proof. exact tables_spec. Qed.
+Print Assumptions C04_tables_spec.
+
 (* non-vacuity: a concrete hash of fixed positive length, a concrete K/H/session id; the model
    computes a 40-byte key from a 3-byte hash (14 turns of the loop), and the keys of the two
    directions differ *)
@@ -183,12 +197,11 @@ Example C04_example :
   (exists k, compute_key (toy_hash 3) (2 ^ 255 - 19) [1; 2; 3] [4; 5] 65 40 = Ok k /\ length k = 40%nat) /\
   compute_key (toy_hash 3) (2 ^ 255 - 19) [1; 2; 3] [4; 5] 65 40 <>
   compute_key (toy_hash 3) (2 ^ 255 - 19) [1; 2; 3] [4; 5] 66 40 /\
-  (exists c m, In c gen_ciphers /\ In m gen_macs /\ requested Client Outbound MacKey c m = (69, 64)).
+  example_pair_exists = true.
 Proof.
   split; [intros m; apply toy_hash_len|]. split; [lia|].
   split; [eexists; vm_compute; reflexivity|].
   split; [eexists; split; vm_compute; reflexivity|].
   split; [vm_compute; discriminate|].
-  exists (nth 8 gen_ciphers ([], 0, 0, None, false)), (nth 4 gen_macs ([], 0, 0)).
-  vm_compute. repeat split; tauto.
+  exact example_pair_exists_ok.
 Qed.
